@@ -316,3 +316,84 @@ pub fn harness_main(
 pub fn words(l: &str) -> Vec<&str> {
     l.split_ascii_whitespace().collect()
 }
+
+/// An ASCII DDDMP file with its nodes renumbered in the order of a depth-first post-order walk
+/// from the roots (then-child first): two files that describe the same diagrams, header included,
+/// have the same canonical bytes whatever numbering the writer chose inside a level. Anything
+/// that does not parse is returned unchanged (and then compared byte by byte).
+pub fn canon_dddmp_ascii(bytes: &[u8]) -> Vec<u8> {
+    fn go(bytes: &[u8]) -> Option<Vec<u8>> {
+        let text = std::str::from_utf8(bytes).ok()?;
+        let lines: Vec<&str> = text.split('\n').collect();
+        let ni = lines.iter().position(|l| l.trim_end() == ".nodes")?;
+        let ei = lines.iter().position(|l| l.trim_end() == ".end")?;
+        if ei < ni || lines[ei + 1..].iter().any(|l| !l.is_empty()) {
+            return None;
+        }
+        let ri = lines[..ni].iter().position(|l| l.starts_with(".rootids"))?;
+        let roots: Vec<i64> = lines[ri].split_whitespace().skip(1).map(|t| t.parse().ok()).collect::<Option<_>>()?;
+        let mut nodes: std::collections::BTreeMap<i64, (Vec<&str>, i64, i64)> = std::collections::BTreeMap::new();
+        for l in &lines[ni + 1..ei] {
+            let t: Vec<&str> = l.split_whitespace().collect();
+            if t.len() < 4 {
+                return None;
+            }
+            let id: i64 = t[0].parse().ok()?;
+            let (th, el): (i64, i64) = (t[t.len() - 2].parse().ok()?, t[t.len() - 1].parse().ok()?);
+            if id <= 0 || nodes.insert(id, (t[1..t.len() - 2].to_vec(), th, el)).is_some() {
+                return None;
+            }
+        }
+        let mut new_id: std::collections::BTreeMap<i64, i64> = std::collections::BTreeMap::new();
+        let mut order: Vec<i64> = Vec::new();
+        for r in &roots {
+            // (node, next child to look at)
+            let mut stack: Vec<(i64, u8)> = vec![(r.abs(), 0)];
+            while let Some((n, k)) = stack.pop() {
+                if n == 0 || new_id.contains_key(&n) {
+                    continue;
+                }
+                let (_, th, el) = nodes.get(&n)?;
+                match k {
+                    0 => {
+                        stack.push((n, 1));
+                        stack.push((th.abs(), 0));
+                    }
+                    1 => {
+                        stack.push((n, 2));
+                        stack.push((el.abs(), 0));
+                    }
+                    _ => {
+                        order.push(n);
+                        new_id.insert(n, order.len() as i64);
+                    }
+                }
+            }
+        }
+        if order.len() != nodes.len() {
+            return None; // nodes no root reaches: keep the bytes
+        }
+        let map = |i: i64| if i == 0 { 0 } else { i.signum() * new_id[&i.abs()] };
+        let mut out = String::new();
+        for (i, l) in lines[..ni].iter().enumerate() {
+            if i == ri {
+                out.push_str(".rootids");
+                for r in &roots {
+                    out.push_str(&format!(" {}", map(*r)));
+                }
+            } else {
+                out.push_str(l);
+            }
+            out.push('\n');
+        }
+        out.push_str(".nodes\n");
+        for n in &order {
+            let (mid, th, el) = &nodes[n];
+            out.push_str(&format!("{} {} {} {}\n", new_id[n], mid.join(" "), map(*th), map(*el)));
+        }
+        out.push_str(".end\n");
+        Some(out.into_bytes())
+    }
+    go(bytes).unwrap_or_else(|| bytes.to_vec())
+}
+
